@@ -20,8 +20,8 @@ RULE = (
     "each byte of a representative set (quick) or all 255 other values (thorough), deletion at "
     "every position, insertion of the representative set at every position; (d, thorough only) a coverage-guided atheris/libFuzzer "
     "campaign on decode with this oracle inside the target, from an empty and from the valid corpus; (e) live reader: each "
-    "malformed input followed by 6 valid frames on a real logged-on endpoint, in one read and in "
-    "separate reads. Oracle: decode(silent=True) never raises, 0<=used<=len, the drain loop "
+    "malformed input followed by 6 valid frames on a real logged-on endpoint, in one read, in "
+    "separate reads and with the read ending 1 / 5 bytes into the next valid frame. Oracle: decode(silent=True) never raises, 0<=used<=len, the drain loop "
     "terminates within len+1 rounds, a message comes with used>0, any returned raw frame is a slice "
     "of the input and passes the independent reference framer (CheckSum and BodyLength "
     "consistent). Non-trivial = input contains the frame-start marker; distinct by input bytes."
@@ -282,6 +282,13 @@ def live_case(acc, m, op, split):
         if split == "one-read":
             r.feed(m + b"".join(vs))
             w.idle()
+        elif split.startswith("tail"):
+            # the read that brings the malformed input ends k bytes into the next valid frame
+            k = int(split[4:])
+            r.feed(m + vs[0][:k])
+            w.idle()
+            r.feed(vs[0][k:] + b"".join(vs[1:]))
+            w.idle()
         else:
             r.feed(m)
             w.idle()
@@ -413,7 +420,7 @@ def live(acc, seed, stride):
             k += 1
             if k % stride:
                 continue
-            for split in ("one-read", "separate-reads"):
+            for split in ("one-read", "separate-reads", "tail1", "tail5"):
                 live_case(acc, g, op, split)
     f = frames[6]
     for pos in range(0, len(f), max(1, stride // 2)):
